@@ -133,6 +133,16 @@ func (r *Run) Violation(sig, what string, witness any) {
 	fmt.Printf("  %s: %s\n", sig, what)
 }
 
+// IsKnown reports whether sig is listed as an open finding for this property.
+func (r *Run) IsKnown(sig string) bool {
+	for _, f := range r.findings {
+		if f.Property == r.ID && f.Status == "open" && f.Signature == sig {
+			return true
+		}
+	}
+	return false
+}
+
 // Violations returns the number of unlisted violations so far.
 func (r *Run) Violations() int { r.mu.Lock(); defer r.mu.Unlock(); return r.violations }
 
